@@ -75,6 +75,7 @@ def vOpt {α : Type} (f : Val → Option α) : Val → Option (Option α)
   | v => (f v).map some
 
 def vTime : Val → Option DateTime
+  | .list [u, o, ns, y, mo, d, h, mi, s, wd, _zoneName] => vTime (.list [u, o, ns, y, mo, d, h, mi, s, wd])
   | .list [u, o, ns, y, mo, d, h, mi, s, wd] => do
     pure { unix := ← vInt u, off := ← vInt o, ns := ← vNat ns, year := ← vInt y, month := ← vNat mo, day := ← vNat d,
            hour := ← vNat h, min := ← vNat mi, sec := ← vNat s, wd := ← vNat wd }
@@ -464,6 +465,32 @@ def judge (family : String) (cfg : Cfg) (req sup del : Val) (outcomeOk : Bool) :
     pure { wf := true, diff := if want.all got.contains then none else some "capability-missing" }
   | _ => none
 
+/-- pipelined commands: request `( ( Afamily req )* )`, supplied `( sup* )`, delivered `( ( Aoutcome del )* )`.
+    Routing clause: every command receives exactly (the canonical form of) the data the backend wrote while
+    answering it — i.e. each step is judged by its own family's oracle. -/
+def judgePipe (cfg : Cfg) (req sup del : Val) : Option Verdict :=
+  match req, sup, del with
+  | .list rs, .list ss, .list ds =>
+    if rs.length != ss.length || rs.length != ds.length then none else
+    let rec go (i : Nat) (rs ss ds : List Val) (acc : Verdict) : Option Verdict :=
+      match rs, ss, ds with
+      | .list [.atom fam, r] :: rs', s :: ss', .list [.atom out, d] :: ds' =>
+        match judge fam cfg r s d (out == "ok") with
+        | none => none
+        | some v =>
+          let diff := match acc.diff, v.diff with
+            | some x, _ => some x
+            | none, some x => some s!"step{i}:{fam}:{x}"
+            | none, none => none
+          go (i + 1) rs' ss' ds' { wf := acc.wf && v.wf, diff }
+      | [], [], [] => some acc
+      | _, _, _ => none
+    go 0 rs ss ds { wf := true, diff := none }
+  | .list rs, .list _, .nil =>
+    -- nothing was delivered at all (the harness gave up): judged by the outcome
+    some { wf := true, diff := some s!"no-delivery:{rs.length}-commands" }
+  | _, _, _ => none
+
 /-! ### correspondence with the model -/
 
 /-- split the bytes of a command's responses into everything before the final (tagged) line and that line without CRLF -/
@@ -663,7 +690,7 @@ def handle (f : List String) : String :=
     match vCfg cfgS, val? reqS, val? supS, val? delS, hexStr? wireS with
     | some cfg, some req, some sup, some del, some wire =>
       let (agree, modelOut) := if outcome == "ok" then modelCheck family cfg req sup del wire qtab else (true, "skipped:outcome")
-      match judge family cfg req sup del (outcome == "ok") with
+      match (if family == "pipe" then judgePipe cfg req sup del else judge family cfg req sup del (outcome == "ok")) with
       | none => s!"{id}\t0\tfail:bad-line\t-"
       | some v =>
         let orc :=
